@@ -1359,8 +1359,22 @@ func (P *Prog) checkReleaseMultiplicity(r *Result, rule string) {
 		}
 	}
 	r.Extra["issue_map_duplicate_keys"] = sortedKeys(dupKeys)
+	if n == 0 {
+		// "never twice" holds trivially when issues are not recycled at all (a maintainer who stops pooling issues has
+		// not broken anything): say so instead of letting the vacuity floor fire
+		putsIssue := false
+		for _, fn := range P.Funcs {
+			eachInstr(fn, func(_ *ssa.BasicBlock, _ int, in ssa.Instruction) {
+				if ci := callOf(in); isSyncPoolMethod(ci, "Put") && len(ci.args()) == 2 && P.isPtrTo(cvi(ci.args()[1]).Type(), R.ZogIssue) {
+					putsIssue = true
+				}
+			})
+		}
+		if !putsIssue {
+			r.ok(rule, "module", "-", "no *ZogIssue is ever put into a pool: an issue cannot be handed to two later executions")
+		}
+	}
 	r.floor(rule, 1)
-	_ = n
 }
 
 // checkPooledSliceHeader: the acquisition function of a pooled slice re-slices
